@@ -99,10 +99,11 @@ Theorem c01_move_construct : forall isvoid s p q oq,
 Proof. exact move_construct_semantics. Qed.
 Print Assumptions c01_move_construct.
 
-(* destruction or explicit drop of an owner resolves its future (payload untouched = no-value) by one resolve() *)
+(* destruction (ordinary or during stack unwinding) or explicit drop of an owner resolves its future (payload untouched
+   = no-value) by one resolve() *)
 Theorem c01_destroy_or_drop_resolves : forall isvoid s p cp,
   PInv s -> nth_error (proms s) p = Some (Some (Some cp)) ->
-  forall x, x = PDestroy p \/ x = PDrop p ->
+  forall x, x = PDestroy p \/ x = PDrop p \/ x = PUnwind p ->
   exists cl cl', nth_error (cells s) cp = Some cl /\ nth_error (cells (fst (pstep isvoid s x))) cp = Some cl' /\
                  c_slot cl' = CReady /\ c_pay cl' = c_pay cl /\ c_nres cl' = 1%nat.
 Proof. exact destroy_resolves. Qed.
